@@ -10,7 +10,12 @@
           b                  rollback()            bb:<stamp>   rollback_before(stamp)
           r                  reset()
           i | o              drop + forced_import_with  (o: also close and reopen the Database)
-   One observation line per step (step 0 = the initial import). *)
+          xd:<st> | xt:<st>:<n> | xo:<st>:<off>:<value>
+                             faults on the change file of stamp st (CvFault.cv_fault): delete, keep the
+                             first n bytes, overwrite the u64 at byte offset off
+   One observation line per step (step 0 = the initial import).  A rollback that follows a fault and
+   leaves a length the data does not back (above 2^24 values, or stored_len above the on-disk length)
+   is observed as `<k> <res> len=beyond` and ends the case (the real vector is not read there). *)
 open BinNums
 open Datatypes
 open Base
@@ -168,11 +173,22 @@ let exec (t : string list) : string list =
        | Panic -> ["0 panic"]
        | Ok s0 ->
            let out = ref [observe 0 w wn "ok0" "-" s0] in
-           let s = ref s0 and k = ref 0 and stop = ref false in
+           let s = ref s0 and k = ref 0 and stop = ref false and faulted = ref false in
            L.iter (fun tok ->
              if not !stop then begin
                incr k;
                let parts = S.split_on_char ':' tok in
+               let fault : CvFault.fop option = match parts with
+                 | ["xd"; st] -> Some (CvFault.FDelete (n_of_string st))
+                 | ["xt"; st; n] -> Some (CvFault.FTruncate (n_of_string st, n_of_string n))
+                 | ["xo"; st; off; v] -> Some (CvFault.FOverwrite (n_of_string st, n_of_string off, n_of_string v))
+                 | _ -> None in
+               match fault with
+               | Some f ->
+                   faulted := true;
+                   s := CvFault.x_fault wn !s f;
+                   out := observe !k w wn "ok0" "-" !s :: !out
+               | None ->
                let o : coq_N CvModel.op = match parts with
                  | ["p"; spec] -> CvModel.Push (CvInst.x_mk_list wn (parse_vspec w spec))
                  | ["t"; n] -> CvModel.Trunc (n_of_string n)
@@ -195,7 +211,12 @@ let exec (t : string list) : string list =
                  | Err e -> if not is_rb then stop := true; "err:" ^ cverr_name e
                  | Panic -> stop := true; "panic" in
                s := s';
-               out := (if !stop then Printf.sprintf "%d %s" !k res else observe !k w wn res rg s') :: !out
+               let beyond = is_rb && !faulted && not !stop &&
+                 (Z.gt (z_of_n (CvModel.cv_len s')) (Z.of_int (1 lsl 24))
+                  || Z.gt (z_of_n s'.CvModel.s_stored_len) (z_of_n (CvInst.x_real_stored_len wn s'))) in
+               if beyond then stop := true;
+               out := (if beyond then Printf.sprintf "%d %s len=beyond" !k res
+                       else if !stop then Printf.sprintf "%d %s" !k res else observe !k w wn res rg s') :: !out
              end) ops;
            L.rev !out)
   | _ -> ["err UnknownCase"]
